@@ -70,7 +70,18 @@ def case_strategy():
                               draw(st.sampled_from([-0.25, 0.0, 0.0, 0.6]))] for _ in range(draw(st.integers(1, 3)))]
         if draw(st.integers(0, 7)) == 0:
             rc['sunk'] = [[draw(st.integers(0, 300)), draw(st.sampled_from([0.25, 15.25, 0.01, 100.0]))] for _ in range(draw(st.integers(1, 2)))]
+        if rc['base']['kind'] == 'rect' and draw(st.integers(0, 9)) == 0:
+            # coordinates whose integer part takes nine or all ten columns (whole-number spacings, so that the fewer decimals
+            # that fit lose nothing)
+            b = rc['base']
+            b['dx'] = [float(max(5, round(v))) for v in b['dx']]; b['dy'] = [float(max(5, round(v))) for v in b['dy']]
+            b['origin'] = [draw(st.sampled_from([1234560000.0, 999999000.0, -123450000.0, 99999900.0, 9999999000.0 - 5000.0])),
+                           draw(st.sampled_from([-123450000.0, 1234560000.0, 6280000.0, -99999000.0])), b['origin'][2]]
+            rc['ops'] = [o for o in rc['ops'] if o['op'] not in ('rotate', 'translate')]
+            rc.get('header', {}).pop('unit', None)
+            rc.pop('wells', None); rc.pop('centres', None)
         c = {'k': 'gen', 'rc': rc}
+        if draw(st.integers(0, 3)) == 0: c['into'] = draw(st.sampled_from(['same', 'other']))
         if draw(st.integers(0, 4)) == 0: c['top_centre'] = draw(st.sampled_from([0.01, 0.25, 5.0, -0.5]))
         if draw(st.integers(0, 2)) == 0:
             one = st.one_of(st.tuples(st.just('block_order'), st.sampled_from([None, 'layer_column', 'dmplex'])),
@@ -94,14 +105,22 @@ def searches(tier):
             Search('generated', 'hyp', case_strategy, n=1600 if q else 30000, shards=8 if q else 16)]
 
 
+def fitted(v, d, w=10):
+    """the number a w-column F field with d decimals holds for v: fewer decimals when the full form is too wide"""
+    for k in range(d, -1, -1):
+        s = '%.*f' % (k, v)
+        if len(s) <= w: return float(s)
+    return float('%.*f' % (d, v))
+
+
 def r2(x, scale, d=2):
     """value carried by a w.df field holding x/scale, back in metres"""
     if x is None: return None
-    return float('%.*f' % (d, x / scale)) * scale
+    return fitted(x / scale, d) * scale
 
 
 def printed(x, scale, d=2):
-    return None if x is None else float('%.*f' % (d, x / scale))
+    return None if x is None else fitted(x / scale, d)
 
 
 def feq(a, b, tol=0.0):
@@ -258,7 +277,14 @@ def check_raw_file(R, path, m, scale, shipped=False):
     R.check(r['wells'] == wl, 'raw:wells', 'WELLS section %r expected %r' % (r['wells'][:2], wl[:2]))
 
 
-def run_geometry(R, g, labels):
+def case_ok_for_wide(m, scale):
+    """with fewer decimals the file is a different (coarser) geometry unless every coordinate is unchanged by the rounding;
+    only such geometries are judged (columns could otherwise collapse, which is not a defect of the format)"""
+    vals = [v for n in m['nodes'] for v in n[1:]] + [v for c in m['columns'] if c['centre_specified'] for v in c['centre']]
+    return all(abs(fitted(v / scale, 2) * scale - v) <= 1e-6 * max(1.0, abs(v)) * 1e-3 for v in vals)
+
+
+def run_geometry(R, g, labels, into=None):
     import mulgrids
     m = geo.extract(g)
     scale = {'': 1.0, 'FEET ': 0.3048}[m['header']['unit_type']]
@@ -267,9 +293,16 @@ def run_geometry(R, g, labels):
     coords = [v for n in m['nodes'] for v in n[1:]] + [v for c in m['columns'] for v in c['centre']] + \
              [l['bottom'] for l in m['layers']] + [c['surface'] for c in m['columns'] if c['surface'] is not None]
     wcoords = [v for w in m['wells'] for p in w['pos'] for v in p]
-    if any(len('%.2f' % (v / scale)) > 10 for v in coords) or any(len('%.1f' % (v / scale)) > 10 for v in wcoords):
+    wide = False
+    if any(len('%.0f' % (v / scale)) > 10 for v in coords + wcoords):
         R.label('skipped:coordinate-beyond-10-columns'); R.exclude('domain:coordinate-beyond-10-columns')
         return
+    if any(len('%.2f' % (v / scale)) > 10 for v in coords) or any(len('%.1f' % (v / scale)) > 10 for v in wcoords):
+        # fits its ten columns only with fewer decimals: the format then carries what fits (the clause "equal to the two
+        # decimals the format carries" is read as "equal to the decimals that fit")
+        R.label('coordinate-needs-all-ten-columns'); wide = True
+        if not case_ok_for_wide(m, scale):
+            R.label('skipped:wide-coordinate-not-on-the-coarser-lattice'); R.exclude('domain:wide-coordinate-not-on-the-coarser-lattice'); return
     bounds = [l['bottom'] for l in m['layers']]
     for c in m['columns']:
         z = c['surface']
@@ -290,7 +323,17 @@ def run_geometry(R, g, labels):
     with R.lib('write-again'): g.write(f4)
     if open(f1, 'rb').read() != open(f4, 'rb').read():
         R.fail('write:second-file-differs', 'the same geometry object written twice gives two different files')
-    with R.lib('read'): g2 = mulgrids.mulgrid(f1)
+    with R.lib('read'):
+        if into == 'same':
+            # read(filename) on an object that already holds a geometry replaces what it holds
+            R.label('read-into:the-written-object-itself'); g2 = g; g2.read(f1)
+        elif into == 'other':
+            R.label('read-into:an-object-holding-another-geometry')
+            import numpy as np
+            g2 = mulgrids.mulgrid().rectangular([10.] * 2, [10.], [5.] * 2, convention=m['header']['convention'])
+            for w in m['wells'][:1]: g2.add_well(mulgrids.well(w['name'], [np.array([1., 1., 0.]), np.array([2., 2., -5.])]))
+            g2.read(f1)
+        else: g2 = mulgrids.mulgrid(f1)
     compare(R, 'roundtrip', geo.extract(g2), exp, size)
     with R.lib('rewrite'): g2.write(f2)
     b1, b2 = open(f1, 'rb').read(), open(f2, 'rb').read()
@@ -299,6 +342,7 @@ def run_geometry(R, g, labels):
         i = next((i for i, (x, y) in enumerate(zip(l1, l2)) if x != y), min(len(l1), len(l2)))
         R.fail('rewrite:bytes-differ', 'line %d: %r vs %r' % (i + 1, l1[i:i + 1], l2[i:i + 1]))
     check_raw_file(R, f1, m, scale)
+    if wide: return        # (a Fortran F10.2 write of such a number prints asterisks: there is no independently written file)
     # independent Fortran-style writer -> library reader
     fm = {'header': {'convention': m['header']['convention'], 'atmosphere_type': m['header']['atmosphere_type'],
                      'atmosphere_volume': m['header']['atmosphere_volume'],
@@ -363,7 +407,7 @@ def run_case(case, R):
                 if 'not supported by DMPlex ordering' in str(e):        # documented refusal (columns with > 4 nodes): not a case
                     R.label('setter:dmplex-refused'); return
                 with R.lib('set-' + name): raise
-        run_geometry(R, g, [])
+        run_geometry(R, g, [], into=case.get('into'))
 
 
 LEVEL_TEXT = ('Generated geometries (Hypothesis recipes over rectangular, shipped-irregular and hand-built meshes with all '
